@@ -258,7 +258,7 @@ class Interp(Engine):
                 c = conc_int(base.t)
                 if c is None:
                     raise Unsupported("symbolic enum .name")
-                return VStr(list(base.cls)[c].name)
+                return VStr(enum_members(base.cls)[c].name)
             if hasattr(base.cls, attr):
                 return self.class_attr(base, base.cls, attr)
         if isinstance(base, VList):
@@ -298,7 +298,15 @@ class Interp(Engine):
             try:
                 k = self.lower(idx)
             except ValueError:
-                raise Unsupported("symbolic key into concrete map")
+                # symbolic key into a map with concrete keys: case split over the keys
+                keys = list(base.d.keys())
+                hit = [self.equal(idx, self.lift(kk)) for kk in keys]
+                if not self.branch(z3.Or(hit)):
+                    raise PyRaise(KeyError, "key not in map", self.cur_line)
+                r = base.d[keys[-1]]
+                for kk, h in list(zip(keys, hit))[-2::-1]:
+                    r = self.ite(h, base.d[kk], r)
+                return r
             if k not in base.d:
                 raise PyRaise(KeyError, repr(k), self.cur_line)
             return base.d[k]
@@ -584,13 +592,21 @@ class Interp(Engine):
             if is_all:
                 return VBool(z3.And(parts) if parts else z3.BoolVal(True))
             return VBool(z3.Or(parts) if parts else z3.BoolVal(False))
-        n, getter = self.sym_iter(it)
         j = z3.Int(self.fresh_name("q"))
+        itf = self.force(it)
+        if isinstance(itf, VRange) and conc_int(itf.step) == 1:
+            # bind the range value itself (good E-matching patterns: Select(a, q) rather than Select(a, start + q))
+            rng = z3.And(j >= itf.start, j < itf.stop)
+            getter = lambda jj: VInt(jj)
+        else:
+            n, getter = self.sym_iter(it)
+            rng = z3.And(j >= 0, j < n)
         npc = len(self.pc)
+        b0 = self.cur_bounds()
+        saved_b = (b0.clone(), self._bounds_n, self._bounds_last)
         self.solver.push()
         try:
             self.in_quant += 1
-            rng = z3.And(j >= 0, j < n)
             self.pc.append(rng)
             self.solver_add(rng)
             self.assign_target(gen.target, getter(j))
@@ -606,6 +622,7 @@ class Interp(Engine):
             self.in_quant -= 1
             del self.pc[npc:]
             self.solver.pop()
+            self._bounds, self._bounds_n, self._bounds_last = saved_b
             self.restore_env(saved)
         guard = z3.And([rng] + conds)
         # assumptions produced while evaluating the body (element well-formedness) hold for every index
@@ -679,7 +696,9 @@ class Interp(Engine):
         self.heap = dict(self.heap0)
         self.lists = {k: (["conc", list(v[1])] if v[0] == "conc" else ["sym", v[1], list(v[2]), v[3]]) for k, v in self.lists0.items()}
         saved_env = self.frames[-1].env
-        self.frames[-1].env = dict(self.env0)
+        merged = dict(saved_env)      # keeps quantifier-bound variables of the enclosing clause
+        merged.update(self.env0)
+        self.frames[-1].env = merged
         snap = None
         try:
             r = self.ev(node)
@@ -717,7 +736,7 @@ class Interp(Engine):
             nkw = {k: self.lower(v) for k, v in kwargs.items()}
         except ValueError:
             raise Unsupported("enum method with symbolic arguments")
-        members = list(ev.cls)
+        members = enum_members(ev.cls)
         vals = []
         for m in members:
             try:
@@ -798,7 +817,7 @@ class Interp(Engine):
         if (
             callee_contract is not None and not force_inline and callee_contract is not self.contract
             and callee_contract.key not in self.contract.inline and not callee_contract.always_inline
-        ) or (callee_contract is not None and callee_contract is self.contract and self.call_depth > 0 and not force_inline):
+        ) or (callee_contract is not None and callee_contract is self.contract and not force_inline and self.frames and self.frames[-1].fn is not None):
             return self.call_modular(callee_contract, fn_u, args, kwargs)
         mod = getattr(fn_u, "__module__", "") or ""
         if not (mod.startswith("ethosu") or mod.startswith("contracts") or mod.startswith("pyvc")):
@@ -871,7 +890,10 @@ class Interp(Engine):
                 # exceptional behaviour
                 raised_conds = []
                 for exc_cls, when in c.raises:
-                    w = self.truth(self.eval_clause(when))
+                    if when is None:
+                        w = z3.Bool(self.fresh_name("raises_" + exc_cls.__name__))
+                    else:
+                        w = self.truth(self.eval_clause(when))
                     raised_conds.append((exc_cls, w))
                 self.contract = saved_contract
                 self.in_clause = saved_clause
@@ -1460,6 +1482,7 @@ class Interp(Engine):
     def cut_loop(self, node, o, spec, guard, pre_body, post_body, head_assume=None, extra_mod=()):
         invs = spec.get("invariants", [])
         line = node.lineno
+        self.env["_pre%d" % o] = VMap({k: v for k, v in self.env.items() if not k.startswith("_pre")})
         # 1. invariants on entry
         for i, cl in enumerate(invs):
             self.prove(self.eval_clause(cl), "inv_entry", "loop#%d.inv[%d]" % (o, i), line)
@@ -1470,8 +1493,6 @@ class Interp(Engine):
         mods |= set(spec.get("havoc_types", {}).keys())
         lists_mod = set(mutated_list_names(node.body)) | set(spec.get("modifies_lists", []))
         fields_mod = set(assigned_fields(node.body)) | set(spec.get("modifies_fields", []))
-        pre_env = dict(self.env)
-        self.env["_pre%d" % o] = VMap({k: v for k, v in pre_env.items()})
         for name in sorted(mods):
             ht = spec.get("havoc_types", {}).get(name)
             if ht is not None:
@@ -1951,8 +1972,23 @@ def _print(self, args, kw):
     return NONE
 
 
+STR_OF = z3.Function("str$of", z3.IntSort(), z3.IntSort())
+
+
 @builtin(str, repr)
 def _str(self, args, kw):
+    if args:
+        v = self.force(args[0])
+        if isinstance(v, (VStr, VStrSym)):
+            return v
+        if isinstance(v, VNone):
+            return VStr("None")
+        iv = self.as_int(v)
+        if iv is not None:
+            c = conc_int(iv.t)
+            if c is not None:
+                return VStr(str(c))
+            return VStrSym(STR_OF(iv.t))
     return VStr("<str>")
 
 
@@ -2126,9 +2162,10 @@ def _sorted_axiom(self, st):
     j = z3.Int(self.fresh_name("j"))
     k = z3.Int(self.fresh_name("k"))
     inr = lambda x: z3.And(x >= 0, x < n)
-    self.assume(z3.ForAll([j], z3.Implies(inr(j), z3.And(inr(f(j)), g(f(j)) == j))))
-    self.assume(z3.ForAll([j], z3.Implies(inr(j), z3.And(inr(g(j)), f(g(j)) == j))))
-    self.assume(z3.ForAll([j], z3.Implies(inr(j), z3.And([z3.Select(b, j) == z3.Select(a, f(j)) for a, b in zip(st[2], arrs)]))))
+    if self.contract.sorted_mode != "insertion":
+        self.assume(z3.ForAll([j], z3.Implies(inr(j), z3.And(inr(f(j)), g(f(j)) == j))))
+        self.assume(z3.ForAll([j], z3.Implies(inr(j), z3.And(inr(g(j)), f(g(j)) == j))))
+        self.assume(z3.ForAll([j], z3.Implies(inr(j), z3.And([z3.Select(b, j) == z3.Select(a, f(j)) for a, b in zip(st[2], arrs)]))))
     loc = self.new_loc()
     self.lists[loc] = ["sym", n, arrs, elemT]
     out = VList(loc)
@@ -2138,6 +2175,21 @@ def _sorted_axiom(self, st):
     xk = self.from_leaves([z3.Select(b, k) for b in arrs], elemT)
     le = self.compare("<=", xj, xk).t
     self.assume(z3.ForAll([j, k], z3.Implies(z3.And(j >= 0, j < k, k < n), le)))
+    if self.contract.sorted_mode == "insertion":
+        # Stable sort of (sorted prefix ++ [x]) inserts x after the last element that is not greater than it.
+        # Obligation: the prefix in[0 .. n-2] is already sorted. Then the result is assumed to be that insertion.
+        ij = self.from_leaves([z3.Select(a, j) for a in st[2]], elemT)
+        ik = self.from_leaves([z3.Select(a, k) for a in st[2]], elemT)
+        pre_sorted = z3.ForAll([j, k], z3.Implies(z3.And(j >= 0, j < k, k < n - 1), self.compare("<=", ij, ik).t))
+        self.prove(n >= 1, "sorted_insertion", "sorted(): list is non-empty", self.cur_line)
+        self.prove(pre_sorted, "sorted_insertion", "sorted(): all but the last element are already in order", self.cur_line)
+        p = z3.Int(self.fresh_name("ins"))
+        self.assume(z3.And(p >= 0, p <= n - 1))
+        self.assume(z3.ForAll([j], z3.Implies(z3.And(j >= 0, j < p), z3.And([z3.Select(b, j) == z3.Select(a, j) for a, b in zip(st[2], arrs)]))))
+        self.assume(z3.And([z3.Select(b, p) == z3.Select(a, n - 1) for a, b in zip(st[2], arrs)]))
+        self.assume(z3.ForAll([j], z3.Implies(z3.And(j > p, j < n), z3.And([z3.Select(b, j) == z3.Select(a, j - 1) for a, b in zip(st[2], arrs)]))))
+        self.sh.assumed = getattr(self.sh, "assumed", set())
+        self.sh.assumed.add("list.sort/sorted is a stable sort: sorting (sorted prefix ++ [x]) inserts x (axiom, used after proving the prefix sorted)")
     return out
 
 
